@@ -102,7 +102,9 @@ func main() {
 			var ip, upf net.IP
 			var teid uint32
 			hang, pn := guarded(func() {
-				ip = stgutg.DecodePDUSessionNASPDU(nas)
+				if len(nas) > 0 { // a transfer-only case carries no NAS PDU
+					ip = stgutg.DecodePDUSessionNASPDU(nas)
+				}
 				teid, upf = stgutg.DecodePDUSessionResourceSetupRequestTransfer(tr)
 			})
 			c["obs"] = ev.M{"hang": hang, "panic": pn, "ip": ev.Ints(ip), "teid": ev.BE32(teid), "upf": ev.Ints(upf)}
@@ -132,6 +134,28 @@ func main() {
 			depth = 4
 		}
 		rec(nil, depth)
+		// adversarial announced lengths: every element id of the walk (and 0x29, a half-octet id, an unknown id) behind several
+		// prefixes, announcing each extreme of a one- and two-octet length (a walk index computed modulo 2^16 or 2^8 would wrap)
+		ids := []byte{0x59, 0x29, 0x56, 0x22, 0x75, 0x78, 0x79, 0x7B, 0x25, 0x17, 0x18, 0x77, 0x66, 0x1F, 0x80, 0xC1, 0x00, 0x27}
+		lens := [][]byte{{0}, {1}, {0x7f}, {0x80}, {0xfb}, {0xfc}, {0xfd}, {0xfe}, {0xff}, {0, 0}, {0, 1}, {0, 0xff}, {1, 0}, {0x7f, 0xff}, {0x80, 0}}
+		for x := 0xf0; x <= 0xff; x++ {
+			lens = append(lens, []byte{0xff, byte(x)})
+		}
+		prefixes := [][]byte{{}, {0x59, 0x24}, {0x80}, {0x56, 0x20, 0xC1}}
+		tails := [][]byte{{1, 2}}
+		if *tier == "thorough" {
+			tails = append(tails, []byte{}, ev.Bytes(r, 300))
+		}
+		for _, id := range ids {
+			for _, ln := range lens {
+				for _, pf := range prefixes {
+					for _, tl := range tails {
+						op := append(append(append(append([]byte{}, pf...), id), ln...), tl...)
+						inputs = append(inputs, ev.M{"fn": "nas", "cls": "length-extremes", "op": op})
+					}
+				}
+			}
+		}
 		if *leads != "" {
 			if b, err := os.ReadFile(*leads); err == nil {
 				var ls [][]int
